@@ -2,13 +2,149 @@ import GT.DriverCore
 /-!
 # Driver extension: operations of `gaussian_toolbox/experimental/truncated_measure.py`
 `execTrunc dst op` returns `true` when it handled the instruction.
+
+Instructions (`t` = register holding a truncated object, limits: `0` = None, `1 h` = scalar,
+`2 h₁ … h_R` = `(R,1)` array; `±inf` bit patterns denote infinite limits):
+
+* `trunc <pdf:0|1> <src> <lower> <upper>`  constructor; the source register receives the caches the
+  constructor fills in the wrapped measure
+* `trunc_call <t> <x> <element_wise:0|1>`
+* `trunc_integrate <1|x|x**2|x**k> <t> [k]`
+* `trunc_query <what> <t> [order]` with `what` ∈ `expectation_integral`, `expectation_x`,
+  `variance` (`_get_variance`), `moment`, `moment_all` (`_get_moment`), `get_density`,
+  `get_mean`, `get_variance`, `get_std` (the last three exist on the PDF class only)
+* `misc <normal_pdf|normal_cdf|norm_cdf|norm_logcdf> <x>` / `misc binom <k>`: `experimental/misc.py`
+  (and the two `jax.scipy.stats.norm` primitives behind `Transc.normCdf` / `normLogCdf`)
 -/
 namespace GT.Driver
 open GT
 
+def limOfFloat (x : F) : Lim F :=
+  if x.isInf then (if x > 0 then .posInf else .negInf) else .fin x
+
+def limArg (R : Nat) : M (Option (LimArg R F)) := do
+  let mode ← lp nat
+  match mode with
+  | 0 => pure none
+  | 1 => do
+    let a ← lp (floats 1)
+    pure (some (.scalar (limOfFloat (a.getD 0 0))))
+  | _ => do
+    let a ← lp (floats R)
+    pure (some (.perComp (tab fun r => limOfFloat (a.getD r.1 0))))
+
+/-- driver limitation, not a model one: `binom` goes through the unary `ofNat (choose k i)`, whose recursion
+depth is the binomial coefficient itself -/
+def maxOrder : Nat := 16
+
+def getTrunc (i : Nat) : M (Σ R, TruncB R F) := do
+  match (← getReg i) with
+  | .trunc R t => pure ⟨R, t⟩
+  | _ => refuse "type-error:trunc"
+
 def execTrunc (dst : Nat) (op : String) : M Bool := do
-  let _ := dst
   match op with
+  | "trunc" => do
+    let isPdf ← lp bool
+    let src ← reg
+    let ⟨R, D, m⟩ ← getMeas src
+    let lower ← limArg R
+    let upper ← limArg R
+    -- `_check_limits` runs first: ValueError when both limits are None
+    if lower.isNone ∧ upper.isNone then refuse "shape-error"
+    -- `assert self.measure.D == 1`
+    if h : D = 1 then
+      let m1 : MeasureB R 1 F := h ▸ m
+      let res := if isPdf then mkTruncPdf be m1 lower upper else mkTruncMeasure be m1 lower upper
+      match res with
+      | some (m', t) =>
+        setReg src (.meas R 1 m')
+        setReg dst (.trunc R t)
+        pure true
+      | none => refuse "shape-error"
+    else refuse "refuse-documented"
+  | "trunc_call" => do
+    let ⟨R, t⟩ ← getTrunc (← reg)
+    let (shape, x) ← getArr (← reg)
+    let ew ← lp bool
+    match shape with
+    | [N, D'] =>
+      if ew then
+        -- the `R != x.shape[0]` test comes before anything touches the coordinate axis
+        if h : N = R then
+          if D' ≠ 1 then refuse "shape-error"
+          let xs : Arr R (Vec 1 F) := h ▸ (v2 x : Arr N (Vec 1 F))
+          setReg dst (.arr [R] (d1 (t.callEw xs)))
+        else refuse "refuse-documented"
+      else
+        if D' ≠ 1 then refuse "shape-error"
+        let xs : Arr N (Vec 1 F) := v2 x
+        setReg dst (.arr [R, N] (d2 (t.callAll xs)))
+      pure true
+    | _ => refuse "shape-error"
+  | "trunc_integrate" => do
+    let key ← lp tok
+    let ⟨R, t⟩ ← getTrunc (← reg)
+    match key with
+    | "1" => setReg dst (.arr [R] (d1 t.integral))
+    | "x" => setReg dst (.arr [R, 1] (d2 t.integrateX))
+    | "x**2" => setReg dst (.arr [R, 1] (d2 t.integrateXPow2))
+    | "x**k" => do
+      let k ← lp nat
+      if k > maxOrder then refuse "bad-op:order-too-large"
+      setReg dst (.arr [R, 1] (d2 (t.integrateXPowK k)))
+    | _ => refuse "bad-op"
+    pure true
+  | "trunc_query" => do
+    let what ← lp tok
+    let ⟨R, t⟩ ← getTrunc (← reg)
+    match what with
+    | "expectation_integral" => setReg dst (.arr [R] (d1 t.expectationIntegral))
+    | "expectation_x" => setReg dst (.arr [R, 1] (d2 t.expectationX))
+    | "variance" => setReg dst (.arr [R, 1] (d2 t.getVariance))
+    | "moment" => do
+      let k ← lp nat
+      if k > maxOrder then refuse "bad-op:order-too-large"
+      setReg dst (.arr [R] (d1 (t.getMoment k)))
+    | "moment_all" => do
+      let k ← lp nat
+      if k > maxOrder then refuse "bad-op:order-too-large"
+      setReg dst (.arr [TruncB.lsRows k, R] (d2 (t.getMomentAll k)))
+    | "get_density" =>
+      match t.getDensity be with
+      | some p => setReg dst (.trunc R p)
+      | none => refuse "other"
+    | "get_mean" =>
+      -- AttributeError on the measure class
+      if !t.isPdf then refuse "other"
+      setReg dst (.arr [R, 1] (d2 t.expectationX))
+    | "get_variance" =>
+      if !t.isPdf then refuse "other"
+      setReg dst (.arr [R, 1] (d2 t.getVariance))
+    | "get_std" =>
+      if !t.isPdf then refuse "other"
+      setReg dst (.arr [R, 1] (d2 t.getStd))
+    | _ => refuse "bad-op"
+    pure true
+  | "misc" => do
+    -- `experimental/misc.py` functions applied entry-wise to an array register
+    let fn ← lp tok
+    match fn with
+    | "binom" => do
+      -- `binom(k, arange(0, k+1))` as floats
+      let k ← lp nat
+      if k > maxOrder then refuse "bad-op:order-too-large"
+      setReg dst (.arr [k + 1] (Array.ofFn fun (i : Fin (k + 1)) => (binom k i.1 : F)))
+    | _ => do
+      let (shape, x) ← getArr (← reg)
+      let f ← match fn with
+        | "normal_pdf" => pure (fun (x : F) => (limOfFloat x).pdf)
+        | "normal_cdf" => pure (fun (x : F) => (limOfFloat x).cdf)
+        | "norm_cdf" => pure (fun (x : F) => Transc.normCdf x)          -- the primitive `norm.cdf`
+        | "norm_logcdf" => pure (fun (x : F) => Transc.normLogCdf x)    -- the primitive `norm.logcdf`
+        | _ => refuse "bad-op"
+      setReg dst (.arr shape (x.map f))
+    pure true
   | _ => pure false
 
 end GT.Driver
